@@ -63,7 +63,12 @@ func (b *exampleBuilder) buildExampleForObjectNode(node *ischema.ObjectNode) ([]
 
 		if ex == nil {
 			// Skipped (recursion limit): must not leave a dangling comma.
-			continue
+			if ischema.IsOptionalNode(childNode) || !ischema.IsNullableNode(childNode) {
+				continue
+			}
+			// A required member cannot be left out: when only "nullable"
+			// stops the recursion, null is the value that ends it.
+			ex = []byte("null")
 		}
 
 		k, err := b.buildObjectKey(node.Key(i))
